@@ -445,13 +445,23 @@ class DocGen:
         self.stats = {"fields": 0, "aliases": 0, "fragments": 0, "inline": 0, "directives": 0, "vars": 0, "merged": 0, "depth": 0}
         self.pending_var_uses = []   # variables used inside fragments, must be declared by every op spreading them
 
+    null_condition_vars = False   # let @skip/@include conditions be nullable variables with a default too (KF-C01-1; C01/C05 only)
+    nullable_default_vars = 0.2   # probability of declaring the variable of a non-null leaf position nullable WITH a default
     bad_var_defaults = 0.0    # probability of a variable default literal of the WRONG KIND with a look-alike text (C04 / C16)
 
     def new_var(self, ty, vars_):
         name = f"v{len(vars_)}"
         d = None
+        if is_nn(ty) and self.nullable_default_vars and base(ty) in self.sg.leaf_names and "l" not in unwrap_nn(ty) and self.r.random() < self.nullable_default_vars:
+            # `$v: T = literal` used where T! is expected (legal: the default is non-null); an explicit null at run time
+            # must fail the field, never reach the resolver
+            vars_[name] = (unwrap_nn(ty), self.sg.const_literal(ty, 0))
+            self.stats["vars"] += 1
+            return name
         if not is_nn(ty) and self.r.random() < 0.3 and base(ty) in self.sg.leaf_names:
             d = self.sg.const_literal(ty, 0)
+        elif is_nn(ty) and self.r.random() < 0.2 and base(ty) in self.sg.leaf_names:
+            d = self.sg.const_literal(ty, 0)          # `$v: T! = literal`: omitted -> default, explicit null -> refused
         if not is_nn(ty) and "n" in ty and self.bad_var_defaults and self.r.random() < self.bad_var_defaults:
             wrong = {"String": [vint(12), vint(1), vfloat("1.5"), vbool(True)], "Int": [vstr("12"), vstr("1"), vfloat("1.5"), vbool(True)],
                      "Float": [vstr("1.5"), vstr("12"), vbool(False)], "Boolean": [vstr("true"), vint(1), vint(0)], "ID": [vfloat("1.5"), vbool(True)]}.get(ty["n"])
@@ -460,10 +470,13 @@ class DocGen:
         self.stats["vars"] += 1
         return name
 
-    def arg_value(self, ty, vars_, depth=0):
+    def arg_value(self, ty, vars_, depth=0, has_default=False):
         """a literal (possibly containing variables) valid at input position `ty`"""
         r = self.r
         if vars_ is not None and r.random() < 0.3:
+            # a non-null position WITH a default also admits a nullable variable (omitted -> default, explicit null -> error)
+            if has_default and is_nn(ty) and self.nullable_default_vars and r.random() < 0.6:
+                return vvar(self.new_var(unwrap_nn(ty), vars_))
             return vvar(self.new_var(ty, vars_))
         lit = self.sg.const_literal(ty, depth)
         if vars_ is not None and self.nested_vars and r.random() < (0.35 if self.nested_vars is True else self.nested_vars):
@@ -484,7 +497,12 @@ class DocGen:
             td = self.sg.tdef(base(t)) if "n" in t else (self.sg.tdef(base(t)) if "l" in t and "l" not in unwrap_nn(t["l"]) else None)
             if td is None or td["kind"] != "input": return lit
             fts = {f["name"]: f["type"] for f in td["fields"]}
-            return vobj([(f["name"]["value"], vvar(self.new_var(fts[f["name"]["value"]], vars_)) if r.random() < 0.4 else self.nest_vars(fts[f["name"]["value"]], f["value"], vars_)) for f in lit["fields"]])
+            dft = {f["name"] for f in td["fields"] if f.get("default")}
+            def fvar(fname):
+                fty = fts[fname]
+                if fname in dft and is_nn(fty) and self.nullable_default_vars and r.random() < 0.6: fty = unwrap_nn(fty)
+                return vvar(self.new_var(fty, vars_))
+            return vobj([(f["name"]["value"], fvar(f["name"]["value"]) if r.random() < 0.4 else self.nest_vars(fts[f["name"]["value"]], f["value"], vars_)) for f in lit["fields"]])
         return lit
 
     def args_text(self, f, vars_):
@@ -492,7 +510,7 @@ class DocGen:
         for a in f["args"]:
             required = is_nn(a["type"]) and not a.get("default")
             if required or self.r.random() < 0.6:
-                parts.append(f"{a['name']}: {print_value(self.arg_value(a['type'], vars_))}")
+                parts.append(f"{a['name']}: {print_value(self.arg_value(a['type'], vars_, has_default=bool(a.get('default'))))}")
         return ("(" + ", ".join(parts) + ")") if parts else ""
 
     note_directive = False   # emit the custom query-side directive @note(t: $var) (must be declared + registered by the check)
@@ -507,7 +525,10 @@ class DocGen:
         self.stats["directives"] += 1
         name = r.choice(["skip", "include"])
         if vars_ is not None and r.random() < 0.4:
+            keep = self.nullable_default_vars
+            if not self.null_condition_vars: self.nullable_default_vars = 0.0
             v = self.new_var(NN(N("Boolean")), vars_)
+            self.nullable_default_vars = keep
             return f" @{name}(if: ${v})", None
         b = r.random() < 0.5
         return f" @{name}(if: {'true' if b else 'false'})", (not b if name == "skip" else b)
@@ -666,6 +687,37 @@ class DocGen:
         if r.random() < 0.5: texts.reverse()        # fragments defined before use, operations last
         return "\n".join(texts), [(k, n) for k, n, _ in ops], op_vars
 
+    def spoil_json(self, ty, val):
+        """(value, what) with exactly one position of the valid JSON `val` for type `ty` made invalid, or None"""
+        r = self.r
+        sites = []
+        def walk(t, v, setter):
+            nn = is_nn(t); t0 = unwrap_nn(t)
+            if v is None: return
+            if nn: sites.append((setter, None, "null at non-null"))
+            if "l" in t0:
+                if isinstance(v, list):
+                    for i, x in enumerate(v): walk(t0["l"], x, (lambda c, i=i, v=v: v.__setitem__(i, c)))
+                else:
+                    walk(t0["l"], v, setter)
+                return
+            b = t0["n"]
+            td = self.sg.tdef(b) if b not in ("Int", "Float", "String", "Boolean", "ID", "Any") else None
+            if td is not None and td["kind"] == "input" and isinstance(v, dict):
+                for f in td["fields"]:
+                    if f["name"] in v: walk(f["type"], v[f["name"]], (lambda c, k=f["name"], v=v: v.__setitem__(k, c)))
+                    if f["name"] in v and is_nn(f["type"]) and not f.get("default"): sites.append(((lambda c, k=f["name"], v=v: v.pop(k)), "POP", "required field dropped"))
+                sites.append(((lambda c, v=v: v.__setitem__("zz_unknown", 1)), 1, "unknown field"))
+            elif b != "Any":
+                wrong = {"Int": ["1", 1.5, True, 2**31], "Float": ["1.5", True], "String": [1, True], "Boolean": [1, "true"], "ID": [1.5, True]}.get(b, [1, "NOPE_VALUE", True])
+                sites.append((setter, r.choice(wrong), "leaf of the wrong kind"))
+        box = [json.loads(json.dumps(val))]
+        walk(ty, box[0], (lambda c: box.__setitem__(0, c)))
+        if not sites: return None
+        setter, c, what = r.choice(sites)
+        setter(c)
+        return box[0], what
+
     def variables_for(self, vars_, invalid=0.0):
         """a JSON variables object for declared variables: valid unless `invalid` strikes"""
         r = self.r
@@ -678,11 +730,21 @@ class DocGen:
                 if k < 0.3 and is_nn(ty): continue                     # missing required
                 if k < 0.5 and is_nn(ty): out[n] = None; continue
                 out[n] = r.choice(["notanumber", 1.5, True, [1, "x"], {"zz": 1}, 2**31, -1, {"x": "a"}, [[None]], "Z"])
+                if r.random() < 0.5:
+                    # near-valid: a valid value with ONE position spoiled (null at a non-null place, required field dropped,
+                    # unknown field added, leaf of the wrong kind) at any depth
+                    spoiled = self.spoil_json(ty, value_to_json(self.sg.const_literal(ty, 0, allow_null=False)))
+                    if spoiled is not None: out[n] = spoiled[0]
                 if base(ty) == "Near" and r.random() < 0.7:      # a mistyped key close to several declared ones
                     out[n] = r.choice([{"alpha": 1}, {"alpha1": 1, "alpah2": 2}, {"alpha5": 3}])
                     if "l" in unwrap_nn(ty): out[n] = [out[n]]
                 continue
             if not is_nn(ty) and (d is not None or True) and r.random() < 0.25: continue     # omitted (default or absent)
+            if is_nn(ty) and d is not None:
+                k = r.random()
+                if k < 0.4: continue                                   # omitted: the default applies
+                if k < 0.6 and invalid > 0: bad = True; out[n] = None; continue    # explicit null for a non-null variable: refused despite the default
+            if not is_nn(ty) and r.random() < (0.3 if d is not None else 0.1): out[n] = None; continue      # explicit null for a nullable variable (default NOT applied)
             lit = self.sg.const_literal(ty, 0)
             out[n] = value_to_json(lit)
         if r.random() < 0.2: out["extra_undeclared"] = 1
